@@ -8,4 +8,5 @@ export PYTHONDONTWRITEBYTECODE=1
 cd lean
 lake build 2>&1 | tail -5
 test -x .lake/build/bin/driver
+test -x .lake/build/bin/trdriver
 echo "setup ok"
